@@ -38,7 +38,9 @@ func New(opts Options) *Formatter {
 
 // Format parses and re-formats a SQL string.
 func (f *Formatter) Format(sql string) (string, error) {
-	if strings.TrimSpace(sql) == "" {
+	// blank input formats to nothing - within the size limit, which the tokenizer
+	// enforces below for everything else
+	if len(sql) <= tokenizer.MaxInputSize && strings.TrimSpace(sql) == "" {
 		return "", nil
 	}
 
